@@ -123,6 +123,15 @@ class HProxy:
     def decimal_digits(self, v, count):
         return self._get().decimal_digits(v, count)
 
+    def float_bits(self, v, n):
+        return self._get().float_bits(v, n)
+
+    def float_of_bits(self, r, n):
+        return self._get().float_of_bits(r, n)
+
+    def value_of_kind(self, name, kind):
+        return self._get().value_of_kind(name, kind)
+
     def mod(self, a, b):
         return self._get().mod(a, b)
 
@@ -354,6 +363,8 @@ class SymH:
         so this is a definition, cached per term so that all users talk about the same digits)"""
         if isinstance(v, int):
             return [(v // 10**k) % 10 for k in range(count)]
+        if not isinstance(v, SInt):
+            v = SInt(zint(v))
         key = ("dec", v.z.get_id(), count)
         hit = self.e.bv_alias.get(key)
         if hit is None:
@@ -373,6 +384,37 @@ class SymH:
 
     def mod(self, a, b):
         return ops.simp_int(zint(a) % zint(b))
+
+    def float_bits(self, v, n):
+        """IEEE-754 image of v as an n-bit unsigned integer (A-float: uninterpreted)"""
+        return ops.from_bv(self.ieee_bits(v, n), n)
+
+    def float_of_bits(self, r, n):
+        if isinstance(r, SInt) and r.bv is not None and r.bv[1] == n:
+            return self.ieee_value(r.bv[0], n)
+        return self.ieee_value(ops.bvview(self.I, r, n, in_range=True), n)
+
+    def value_of_kind(self, name, kind):
+        """a symbolic value of a given dynamic type (for wrongly-typed-input obligations)"""
+        if kind == "int":
+            return self.int(name)
+        if kind == "bool":
+            return self.bool(name)
+        if kind == "float":
+            return self.real(name)
+        if kind == "str":
+            return self.text(name)
+        if kind == "bytes":
+            return self.bytes(name)
+        if kind == "bytearray":
+            return self.bytearray(name)
+        if kind == "none":
+            return None
+        if kind == "list":
+            return [self.int(name)]
+        if kind == "dict":
+            return {"x": self.int(name)}
+        raise Undecided(f"value kind {kind}")
 
     # ---- A-float: IEEE images through uninterpreted functions
     def _uf(self, name, *sorts):
@@ -612,6 +654,35 @@ class NativeH:
 
     def decimal_digits(self, v, count):
         return [(v // 10**k) % 10 for k in range(count)]
+
+    def float_bits(self, v, n):
+        import struct
+        return int.from_bytes(struct.pack(">f" if n == 32 else ">d", v), "big")
+
+    def float_of_bits(self, r, n):
+        import struct
+        return struct.unpack(">f" if n == 32 else ">d", int(r).to_bytes(n // 8, "big"))[0]
+
+    def value_of_kind(self, name, kind):
+        if kind == "int":
+            return self.int(name)
+        if kind == "bool":
+            return self.bool(name)
+        if kind == "float":
+            return self.real(name)
+        if kind == "str":
+            return self.text(name)
+        if kind == "bytes":
+            return self.bytes(name)
+        if kind == "bytearray":
+            return self.bytearray(name)
+        if kind == "none":
+            return None
+        if kind == "list":
+            return [self.int(name)]
+        if kind == "dict":
+            return {"x": self.int(name)}
+        raise ValueError(kind)
 
     def mod(self, a, b):
         return a % b
